@@ -53,6 +53,11 @@ FIX = [
  ('C19-1-splitlines-unicode-separators', 'C19', 'fix: iter_splitlines line-ending regex uses \\u2028/\\u2029', "'\\x2028' typo split at ' 28' and missed U+2028/U+2029"),
  ('C19-2-reverse-iter-lines-final-flush', 'C19', 'fix: reverse_iter_lines splits the remainder at the start of the file', "b'abc\\n' and b'\\nb' were returned whole"),
  ('C19-3-reverse-iter-lines-honour-encoding', 'C19', 'fix: reverse_iter_lines honours the file or given encoding', "latin-1 text file raised UnicodeDecodeError"),
+ ('C02-1-ior-bypasses-ring', 'C02', 'fix: LRI/LRU |= goes through update() (capacity, linked list, lock)', "LRI(max_size=1) |= [('a', 2)] bypassed the ring: c['a'] raised KeyError, len could exceed max_size"),
+ ('C02-2-copy-reads-through-lookups', 'C02', 'fix: LRI/LRU.copy copies the ring under the lock instead of looking every key up', 'copy() bumped the source hit_count, reordered an LRU source, copied in dict order and iterated outside the lock'),
+ ('C02-3-eq-dict-recursion', 'C02', 'fix: LRI == plain dict no longer recurses', 'LRI() == {} raised RecursionError'),
+ ('C02-4-update-kwargs-only', 'C02', 'fix: LRI.update accepts keyword arguments only, like dict.update', 'c.update(a=2) raised TypeError'),
+ ('C03-2-len-sees-half-done-eviction', 'C03', 'fix: len(LRI) takes the lock so it never sees a half-done eviction', 'len(c) returned max_size-1 during an evicting insert of another thread'),
 ]
 only = sys.argv[1:] or None
 kf_path = '/verif/known_findings.json'
